@@ -101,6 +101,13 @@ def level_func(shape, call):
     elif shape == 3:
         lines += ["    with w.mk(i, 0) as a, w.mk(i, 1) as b:", "        try:", "            with w.mk(i, 2):"]
         ind = 4
+    elif shape == 4:
+        # as many nested with blocks as one frame can hold (20 on CPython <= 3.11, whose 3.12.1 successor's compiler
+        # crashes on 19+ nested with statements: 17 there)
+        nest = 20 if sys.version_info < (3, 12) else 17
+        for k in range(nest):
+            lines.append("    " * (1 + k) + "with w.mk(i, %d):" % k)
+        ind = 1 + nest
     for ln in pre + [stmt]:
         lines.append("    " * ind + ln)
     if shape == 3:
